@@ -27,7 +27,7 @@ class QUICOutputbuilder:
             self.server_port = self.default_port
 
     def build(self, metadata: bool):
-        pn = self.decrypted_traffic[0].src_packet.packet_num
+        pn = self.decrypted_traffic[0].src_packet  # frames are grouped by the packet that carried them, not by its number
         ts = self.decrypted_traffic[0].src_packet.ts
         isserver = self.decrypted_traffic[0].src_packet.isserver
         packets = bytearray()
@@ -43,12 +43,12 @@ class QUICOutputbuilder:
             elif data is None:
                 continue
 
-            if frame.src_packet.packet_num == pn:
+            if frame.src_packet is pn:
                 packets.extend(data)
                 continue
             else:  # if packets number changes
                 if frame.src_packet.ts == ts:  # if same ts => same datagram
-                    pn = frame.src_packet.packet_num
+                    pn = frame.src_packet
                     packets.extend(data)
                     continue
                 else:  # if not same ts => different datagram
@@ -78,7 +78,7 @@ class QUICOutputbuilder:
 
                     self.out.append((packet, ts))
 
-                    pn = frame.src_packet.packet_num
+                    pn = frame.src_packet
                     ts = frame.src_packet.ts
                     isserver = frame.src_packet.isserver
                     packets = bytearray()
